@@ -94,7 +94,7 @@ Tgt(e, p, i, M) ==
   ELSE IF p.rel THEN
        (IF Given(a) /\ ~(a.k = "n" /\ a.v = 0 /\ a.s = 0)
           THEN [k |-> "n", q |-> [k |-> "n", v |-> PosV(c) + a.v, s |-> 0, t |-> FALSE],
-                fz |-> ~M.exact]
+                fz |-> (~M.exact \/ a.s # 0 \/ (c.k = "n" /\ c.s # 0))]
           ELSE [k |-> "n", q |-> (IF c.k = "n" THEN c ELSE [k |-> "n", v |-> 0, s |-> 0, t |-> FALSE]), fz |-> FALSE])
   ELSE (IF Given(a) THEN [k |-> "n", q |-> a, fz |-> FALSE]
         ELSE [k |-> "n", q |-> (IF c.k = "n" THEN c ELSE [k |-> "n", v |-> 0, s |-> 0, t |-> FALSE]), fz |-> FALSE])
